@@ -45,8 +45,13 @@ func concMain(g int) {
 		"7e004179000d0102f839f0ff000000000047782f020101",
 		"7e005c000d0102f839f0ff00000000004778",
 	}
-	for _, h := range fixed {
-		lines = append(lines, "dec plain "+h)
+	{
+		// in front, so that they are always among the shared messages (the shared set is capped)
+		var fl []string
+		for _, h := range fixed {
+			fl = append(fl, "dec plain "+h)
+		}
+		lines = append(fl, lines...)
 	}
 	seq := make([]string, len(lines))
 	for i, l := range lines {
